@@ -48,8 +48,9 @@ def type_name(v):
 
 # ------------------------------------------------------------------ core builtins
 def len_(it, v):
-    if isinstance(v, (set, frozenset, dict)) and any(is_sym(x) for x in v):
-        raise OutOfSubset("len() of a set / dict with symbolic members (duplicates are not decided)")
+    if isinstance(v, (set, frozenset)) and any(is_sym(x) for x in v):
+        raise OutOfSubset("len() of a set with symbolic members (duplicates are not decided)")
+    # (dict keys are kept pairwise distinct by construction: KeyedDict assumes it, stores fork on key equality)
     if isinstance(v, (list, tuple, dict, set, frozenset, str, bytes, range)):
         return len(v)
     if isinstance(v, SStr):
@@ -382,10 +383,10 @@ def b_dict(it, args, kw):
             d.update(src)
         else:
             for pair in _listify(it, src):
-                k, v = it.iterate_all(pair)
-                if is_sym(k):
-                    raise OutOfSubset("dict() with symbolic key")
-                d[k] = v
+                kv = it.iterate_all(pair) if isinstance(pair, (list, tuple)) or not isinstance(pair, (str, int)) else None
+                if kv is None or len(kv) != 2:
+                    it.raise_builtin("ValueError", "dictionary update sequence element has wrong length")
+                it.store_subscript(d, kv[0], kv[1])
     d.update(kw)
     return d
 
